@@ -181,14 +181,37 @@ func validOptionalPort(port string) bool {
 // 当语法错误时，会触发 panic，可通过 [CheckSyntax] 检测语法的正确性。
 func (hs *Hosts) Add(domain ...string) {
 	for _, d := range domain {
-		err := hs.tree.Add(strings.ToLower(d), hs.emptyHandlerFunc, nil, http.MethodGet)
+		err := hs.tree.Add(lowerDomain(d), hs.emptyHandlerFunc, nil, http.MethodGet)
 		if err != nil {
 			panic(err)
 		}
 	}
 }
 
-func (hs *Hosts) Delete(domain string) { hs.tree.Remove(strings.ToLower(domain)) }
+func (hs *Hosts) Delete(domain string) { hs.tree.Remove(lowerDomain(domain)) }
+
+// 域名不区分大小写，但是参数的名称和规则是区分的，比如 {id:\D+} 不同于 {id:\d+}，
+// 所以只将 {} 之外的内容转换成小写。
+func lowerDomain(domain string) string {
+	var b strings.Builder
+	for domain != "" {
+		start := strings.IndexByte(domain, '{')
+		if start < 0 {
+			b.WriteString(strings.ToLower(domain))
+			break
+		}
+		b.WriteString(strings.ToLower(domain[:start]))
+
+		end := strings.IndexByte(domain[start:], '}')
+		if end < 0 {
+			b.WriteString(domain[start:])
+			break
+		}
+		b.WriteString(domain[start : start+end+1])
+		domain = domain[start+end+1:]
+	}
+	return b.String()
+}
 
 func (hs *Hosts) emptyHandlerFunc() {}
 
